@@ -276,6 +276,37 @@ func c10Run(t *testing.T, p c10Plan) (res vfResult) {
 				}
 			}
 		}
+		// the rollout cookie is carried next to junk the cookie parser skips, or on a second Cookie line: the decision
+		// is still the one its value gets alone
+		for _, pct := range probe {
+			e.r.SetRolloutSplit("svc", pct, nil)
+			for _, v := range p.Values {
+				want, _ := e.side("kamal-rollout=" + v)
+				for _, hdr := range []string{
+					"kamal-rollout=" + v + "; garbage", "garbage; kamal-rollout=" + v, "bad name=1; kamal-rollout=" + v, "kamal-rollout=" + v + "; x=\"unterminated",
+					"=novalue; kamal-rollout=" + v, "a=b; ; ;kamal-rollout=" + v + ";", "x=a b c; kamal-rollout=" + v,
+				} {
+					if got, rp := e.side(hdr); got != want {
+						res.failf("junk-next-to-cookie", "pct=%d Cookie header %q went to %s, the cookie value alone goes to %s (%v)", pct, hdr, got, want, rp)
+						return
+					}
+				}
+				req := vfNewRequest("GET", "h.test", "/", nil, nil)
+				req.Header.Add("Cookie", "session=abc")
+				req.Header.Add("Cookie", "kamal-rollout="+v)
+				rp := e.w.do(e.r, req)
+				got := "other"
+				if rp.Status == 200 && vfContains(e.active, rp.Target) {
+					got = "active"
+				} else if rp.Status == 200 && vfContains(e.roll, rp.Target) {
+					got = "rollout"
+				}
+				if got != want {
+					res.failf("second-cookie-line", "pct=%d rollout cookie %q on a second Cookie header line went to %s, alone it goes to %s", pct, v, got, want)
+					return
+				}
+			}
+		}
 		// rollout stop: back to active for everything
 		if err := e.r.StopRollout("svc"); err != nil {
 			res.failf("stop-failed", "rollout stop: %v", err)
